@@ -273,7 +273,11 @@ class Path:
 
 
 class LoopSpec:
-    def __init__(self, k="k", invariants=(), defs=None, modifies=(), ghost_defs=None, havoc_types=None):
+    def __init__(self, k="k", invariants=(), defs=None, modifies=(), ghost_defs=None, havoc_types=None, asserts=(),
+                 split=None, exit_asserts=()):
+        self.exit_asserts = list(exit_asserts)  # stepping stones proved, then assumed, right after the loop
+        self.asserts = list(asserts)  # proved, then assumed, at the start of an arbitrary iteration
+        self.split = split  # (expression text, [values]): case split for the preservation VCs
         self.k = k
         self.invariants = list(invariants)
         self.defs = dict(defs or {})  # var (or 'self.field') -> expression text defining it at iteration k
@@ -294,6 +298,7 @@ class World:
         self.spec_ns = {}  # name -> HostFn / values visible in contract expressions
         self.inline_depth_limit = 12
         self.dropped = set()
+        self.lemmas = []
 
     def funcv(self, dotted):
         mi, qn, node = self.repo.find_function(dotted)
